@@ -9,7 +9,7 @@ same value iff `strValue` gives the same bytes.  `none`: not a well-formed liter
 
 `strOutOk inLit outLit`: what C09 demands of a printed literal: it is one well-formed literal token with the value
 of the input literal, a string literal contains no raw line terminator (that is well-formedness), and it contains
-neither `</script` (any case) nor — unless the input literal does — `<!--`.
+neither `</script` (any case) nor `<!--` (what the printer guarantees since /repo a80add2: it writes `<\/script`, `<\!--`).
 -/
 namespace Verif.Spec.C09JsStr
 open Verif.Spec.C09JsLex
@@ -119,6 +119,6 @@ def strOutOk (inLit outLit : List Char) : Bool :=
   (match strValue inLit, strValue outLit with
    | some a, some b => a == b
    | _, _ => false)
-  && !hasScriptEnd outLit && (!hasCommentOpen outLit || hasCommentOpen inLit)
+  && !hasScriptEnd outLit && !hasCommentOpen outLit
 
 end Verif.Spec.C09JsStr
